@@ -3,6 +3,10 @@
    processes running the start-up/shutdown program of munged.c/lock.c as data; labels Step p, Crash p
    (SIGKILL, enabled in every state), Term p (clean stop)).  The program order is compared with an
    strace of the real daemon on every run; what lock.c asks the kernel for comes from gen/GenStart.v.
+   Every system call of start-up and shutdown that changes the file system or the socket is a step of its own
+   (open(pid)/write(pid), unlink(seed)/open(seed)/write(seed) are separate), so the SIGKILL label falls after each
+   of them and the states it leaves (empty pid file, empty seed file) are start states of the restart theorems;
+   a file's content is the process that wrote it completely (the seed's generation).
 
    Vocabulary: [run init hist = Some s0] with [quiet s0] = any earlier history (starts, SIGKILLs, clean
    stops, any number of processes) after which no munged is running; [starts_and_crashes sched] =
@@ -94,17 +98,39 @@ Theorem C15_kill_then_start : forall sched s p s1 q,
 Proof. exact kill_then_start. Qed.
 Print Assumptions C15_kill_then_start.
 
-(* After the shutdown program: socket, lock and pid names absent, a new seed file present, the process
-   has exited successfully and holds no lock and no listening socket. *)
+(* After the shutdown program: socket, lock and pid names absent, a NEW seed file present (an inode that did not
+   exist when the stop began, complete, written by the stopping process: content = Some p), the process has exited
+   successfully and holds no lock and no listening socket. *)
 Theorem C15_clean_stop_postcondition : forall s p,
   st (procs s p) = Running -> pc (procs s p) = serve_pc ->
   exists s', run s (Term p :: repeat (Step p) (length shutdown)) = Some s' /\
     st (procs s' p) = Exited /\
     names s' NSock = None /\ names s' NLock = None /\ names s' NPid = None /\
-    (exists f, names s' NSeed = Some f /\ next s <= f /\ inodes s' f = seed_inode) /\
+    (exists f, names s' NSeed = Some f /\ next s <= f /\ inodes s' f = seed_inode /\ content s' f = Some p) /\
     (forall i, lockown s' i <> Some p) /\ (forall j, listener s' j <> Some p).
 Proof. exact clean_stop_postcondition. Qed.
 Print Assumptions C15_clean_stop_postcondition.
+
+(* Every clean stop, in every reachable state (any number of earlier start/stop cycles, kills, other processes):
+   the seed file it leaves is not the file the seed name led to before, and carries the stopping process's own
+   generation and nobody else's. *)
+Theorem C15_seed_renewed_every_stop : forall sched s p, run init sched = Some s ->
+  st (procs s p) = Running -> pc (procs s p) = serve_pc ->
+  exists s', run s (Term p :: repeat (Step p) (length shutdown)) = Some s' /\
+    exists f, names s' NSeed = Some f /\ names s NSeed <> Some f /\ content s' f = Some p /\
+              (forall q, q <> p -> content s' f <> Some q).
+Proof. exact seed_renewed. Qed.
+Print Assumptions C15_seed_renewed_every_stop.
+
+(* What random.c does with the seed file, as observed from the current source: the reader returns on an empty or
+   short file (what a SIGKILL between open(seed) and write() leaves) and on a complete one; the writer unlinks the
+   old file first, creates with O_CREAT, not O_EXCL, mode 0600, creates a missing file and renews an existing one. *)
+Theorem C15_seed_call_shape :
+  (seed_read_short_returns = true /\ seed_read_full_returns = true) /\
+  (seed_write_unlinks_first = 1%N /\ seed_open_creat = true /\ seed_open_excl = false /\
+   seed_create_mode = 384%N /\ seed_write_creates_missing = true /\ seed_write_renews_existing = true).
+Proof. exact (conj f_seed_read_returns f_seed_write_shape). Qed.
+Print Assumptions C15_seed_call_shape.
 
 (* Finding F-C15-unlink.  The faithful model of the unchanged code violates "at most one ... ever" as
    soon as a CLEAN stop falls between another start's open(lock) and its F_SETLK: witness schedule
@@ -137,9 +163,13 @@ Print Assumptions C15_lock_call_shape.
 
 (* non-vacuity: the premises are satisfiable and the conclusions are not trivially true.
    (1) three racing starts, one interleaving, then the winner is killed and a fourth start serves;
-   (2) a daemon killed after each of its 1..16 steps (start-up, service, shutdown): a fresh start serves. *)
+   (2) a daemon killed after each of its 1..19 steps (start-up, service, shutdown): a fresh start serves;
+   (3) killed between open(seed) and write(seed) of its shutdown: an empty seed file is left, a fresh start serves,
+       and its own clean stop leaves a seed written by itself;
+   (4) three start/serve/stop cycles: the seed is written by the process of each cycle in turn. *)
 Definition race3 : list label :=
-  [Step 0; Step 1; Step 2; Step 1; Step 0; Step 2; Step 2; Step 0; Step 1; Step 2; Step 2; Step 2; Step 2; Step 2].
+  [Step 0; Step 1; Step 2; Step 1; Step 0; Step 2; Step 2; Step 0; Step 1; Step 2; Step 0; Step 1;
+   Step 2; Step 2; Step 2; Step 2; Step 2; Step 2].
 Example C15_race3_example :
   match run init race3 with
   | Some s => serving s 2 && Nat.eqb (status_code (st (procs s 0))) 2 && Nat.eqb (status_code (st (procs s 1))) 2
@@ -150,7 +180,26 @@ Proof. split; vm_compute; reflexivity. Qed.
 
 Example C15_kill_points_example :
   forallb (fun n => match run init (firstn n (life 0) ++ [Crash 0] ++ repeat (Step 1) serve_pc) with
-                    | Some s => serving s 1 | None => false end) (seq 1 16) = true.
+                    | Some s => serving s 1 | None => false end) (seq 1 19) = true.
+Proof. vm_compute. reflexivity. Qed.
+
+Definition opt_none {A} (o : option A) : bool := match o with None => true | Some _ => false end.
+Example C15_empty_seed_example :
+  match run init (firstn 17 (life 0) ++ [Crash 0]) with
+  | Some s => negb (opt_none (names s NSeed)) && opt_none (seed_content s) && negb (opt_none (names s NPid))
+  | None => false end = true
+  /\ match run init (firstn 17 (life 0) ++ [Crash 0] ++ life 1) with
+     | Some s => opt_is (seed_content s) 1 && opt_none (names s NPid) && opt_none (names s NSock) && opt_none (names s NLock)
+     | None => false end = true.
+Proof. split; vm_compute; reflexivity. Qed.
+
+Example C15_seed_cycles_example :
+  match run init (life 0), run init (life 0 ++ life 1), run init (life 0 ++ life 1 ++ life 2) with
+  | Some a, Some b, Some c =>
+      opt_is (seed_content a) 0 && opt_is (seed_content b) 1 && opt_is (seed_content c) 2
+      && negb (Nat.eqb (match names a NSeed with Some f => f | None => 0 end) (match names b NSeed with Some f => f | None => 0 end))
+      && negb (Nat.eqb (match names b NSeed with Some f => f | None => 0 end) (match names c NSeed with Some f => f | None => 0 end))
+  | _, _, _ => false end = true.
 Proof. vm_compute. reflexivity. Qed.
 
 Example C15_quiet_init : quiet init /\ run init [] = Some init.
@@ -185,12 +234,12 @@ Theorem C15_path_program : forall c, refuses c = false -> cprog c = map (concret
 Proof. exact cprog_refines. Qed.
 Print Assumptions C15_path_program.
 
-(* A refused configuration: position 4 of its program is the failing bind step, which leaves the state as it was;
+(* A refused configuration: position 5 of its program is the failing bind step, which leaves the state as it was;
    in every schedule, with any other daemons on any other paths, the process never holds a socket, never listens,
    never reaches service. *)
 Theorem C15_path_refused_binds_nothing : forall cf sched cs p,
   refuses (cf p) = true -> crun (cinit cf) sched = Some cs ->
-  (nth_error (cprog (cf p)) 4 = Some (CBind true (bind_name (cf p))) /\
+  (nth_error (cprog (cf p)) 5 = Some (CBind true (bind_name (cf p))) /\
    forall s q pr nm, cexec s q pr (CBind true nm) = CFail s) /\
   sockfd (cprocs cs p) = None /\ (forall j, clistener cs j <> Some p) /\ cat_serve cs p = false.
 Proof. exact (fun cf sched cs p Hr Hrun => conj (cprog_refused (cf p) Hr) (refused_never_binds cf sched cs p Hr Hrun)). Qed.
@@ -254,7 +303,8 @@ Theorem C15_path_clean_stop : forall c cs p,
     st (cprocs cs' p) = Exited /\
     cnames cs' (c_sock c) = None /\ cnames cs' (bind_name c) = None /\
     cnames cs' (lock_name_of (c_sock c)) = None /\ cnames cs' (c_pid c) = None /\
-    (exists f, cnames cs' (c_seed c) = Some f /\ cnext cs <= f /\ cinodes cs' f = seed_inode) /\
+    (exists f, cnames cs' (c_seed c) = Some f /\ cnext cs <= f /\ cinodes cs' f = seed_inode /\
+               ccontent cs' f = Some p) /\
     (forall i, clockown cs' i <> Some p) /\ (forall j, clistener cs' j <> Some p).
 Proof. exact path_clean_stop. Qed.
 Print Assumptions C15_path_clean_stop.
@@ -277,12 +327,12 @@ Example C15_path_boundary_example :
                                      (seq 0 (n + 7)))
            | None => false end) [c15_cap - 2; c15_cap - 1] = true
   /\ forallb (fun n =>
-        match crun (cinit (fun _ => c15_conf n "0"%byte)) (repeat (Step 0) 5) with
+        match crun (cinit (fun _ => c15_conf n "0"%byte)) (repeat (Step 0) 6) with
         | Some s => Nat.eqb (status_code (st (cprocs s 0))) 2
                     && negb (existsb (fun k => is_sock s (firstn k (c15_path n))) (seq 0 (n + 2)))
         | None => false end) [c15_cap; c15_cap + 1] = true
   /\ match crun (cinit (fun p => if Nat.eqb p 0 then c15_conf c15_cap "0"%byte else c15_conf (c15_cap - 1) "1"%byte))
-                (repeat (Step 0) 5 ++ repeat (Step 1) serve_pc) with
+                (repeat (Step 0) 6 ++ repeat (Step 1) serve_pc) with
      | Some s => cserving (c15_conf (c15_cap - 1) "1"%byte) s 1 && Nat.eqb (status_code (st (cprocs s 0))) 2
                  && opt_is (name_listener s (c15_path (c15_cap - 1))) 1
      | None => false end = true.
